@@ -26,7 +26,7 @@ def gen(tier, rng):
         root = rng.choice(["cube", "cube", "cube", "seq", "coll"])
         cfg = {"root": root, "nd": rng.choice([2, 3]), "mask": rng.random() < 0.5, "unc": rng.choice([None, "std", "var", "unknown"]),
                "ec": rng.choice(["none", "q", "time", "skymesh", "sky", "q+time", "q3", "q3"]), "pre": rng.choice(["plain", "plain", "sliced", "rebinned"]),
-               "seed": rng.randrange(10 ** 9), "nsteps": rng.choice([2, 3, 4, 5, 6])}
+               "seed": rng.randrange(10 ** 9), "nsteps": rng.choice([2, 3, 4, 5, 6]), "nan": rng.random() < 0.3}
         if cfg["ec"] == "q3":
             cfg["nd"] = 3
         key = repr(cfg)
@@ -46,6 +46,9 @@ def _mk_cube(cfg, rng, shape=None, cid=0):
     pre = cfg["pre"]
     full = ((3,) + shape) if pre == "sliced" else (tuple(2 * s for s in shape) if pre == "rebinned" else shape)
     d = (np.arange(int(np.prod(full)), dtype=float) + 1000 * cid).reshape(full)
+    if cfg.get("nan"):
+        d[tuple(rng.randrange(n) for n in full)] = np.nan          # (an invalid value somewhere, for the nan-operations)
+        d[tuple(0 for n in full)] = np.nan
     kw = {}
     if cfg["mask"]:
         kw["mask"] = (d % 3 == 0)
@@ -271,8 +274,8 @@ def run(case):
                     kw = {}
                     if o.uncertainty is not None and rng.random() < 0.6:
                         kw["propagate_uncertainties"] = True
-                    if rng.random() < 0.4:
-                        kw["operation"] = rng.choice([np.sum, np.mean])
+                    if rng.random() < 0.5:
+                        kw["operation"] = rng.choice([np.sum, np.mean, np.nansum, np.nanmean])
                     if rng.random() < 0.3:
                         kw["operation_ignores_mask"] = True
                     desc = f"#{i}.rebin({bins}, {', '.join(f'{a}={getattr(b, chr(95) * 2 + 'name' + chr(95) * 2, b)}' for a, b in kw.items())})"
@@ -305,6 +308,10 @@ def run(case):
                     from astropy.wcs import WCS
                     if isinstance(o.wcs, WCS) and cfg["pre"] == "plain" and o.wcs.pixel_n_dim == len(shape):
                         desc = f"#{i}.reproject_to(copy of its wcs)"
+                        res, opk = o.reproject_to(deepcopy(o.wcs), shape_out=shape), "KReproject"
+                    elif o.wcs.pixel_n_dim == len(shape):
+                        # an already sliced / rebinned cube: onto its own (wrapped) WCS
+                        desc = f"#{i}.reproject_to(copy of its (wrapped) wcs)"
                         res, opk = o.reproject_to(deepcopy(o.wcs), shape_out=shape), "KReproject"
                 elif op == "unwrap":
                     from ndcube.wcs.tools import unwrap_wcs_to_fitswcs
